@@ -38,7 +38,8 @@ class _D(Domain):
     loop_bound = 2
 
     def resolve_call(self, st, call, walker):
-        return None
+        # private helpers extracted from the analysed code are followed
+        return walker.resolve_helper(st, call)
 
 
 def _abs_eval(n, v):
@@ -71,11 +72,31 @@ def _abs_eval(n, v):
     raise AnalysisError(f'guard {norm(n)} not understood')
 
 
+def _order_field(program):
+    """(ordering field, generator field position info) of the wait record."""
+    wg = program.cls('_WaitingGenerator')
+    fields = []
+    for s_ in wg.node.body:
+        if isinstance(s_, ast.AnnAssign) and isinstance(s_.target, ast.Name):
+            cmp_ = True
+            if isinstance(s_.value, ast.Call) and dotted(s_.value.func) == \
+                    'field':
+                for k in s_.value.keywords:
+                    if k.arg == 'compare' and isinstance(
+                            k.value, ast.Constant):
+                        cmp_ = bool(k.value.value)
+            fields.append((s_.target.id, cmp_))
+    compared = [n for n, c in fields if c]
+    return wg, fields, (compared[0] if len(compared) == 1 else None)
+
+
 def run(program, rep, tier):
     cp = program.cls('CoroutineProcessor')
     f = program.method('CoroutineProcessor', 'process')
     site = f.where
     dtp = f.params()[1]
+    wg, wfields, OF = _order_field(program)
+    OFN = OF or 'wait_time'
     # ---- writes of the timer, whole class ----------------------------------
     n_w = 0
     for m in cp.methods.values():
@@ -166,7 +187,7 @@ def run(program, rep, tier):
                         empty_known = truth
                     else:
                         empty_known = not truth
-                if 'wait_time' in t and T in t:
+                if f'.{OFN}' in t and T in t:
                     cnt['wake'] += 1
                     if not wake_seen and advs != 1:
                         flag('writes', e.node,
@@ -179,7 +200,7 @@ def run(program, rep, tier):
                     if isinstance(n, ast.Compare) and len(n.ops) == 1:
                         l, r, op = norm(n.left), norm(n.comparators[0]), \
                             n.ops[0]
-                        head = f'{WQ}[0].wait_time'
+                        head = f'{WQ}[0].{OFN}'
                         if (l == T and r == head and isinstance(op, ast.GtE)) \
                                 or (l == head and r == T and isinstance(
                                     op, ast.LtE)):
@@ -227,10 +248,12 @@ def run(program, rep, tier):
                     if isinstance(rec, ast.Call) and dotted(rec.func) == \
                             '_WaitingGenerator':
                         wt = None
-                        if len(rec.args) >= 2:
-                            wt = rec.args[1]
+                        names = [n for n, _ in wfields]
+                        pos = names.index(OFN) if OFN in names else 1
+                        if len(rec.args) > pos:
+                            wt = rec.args[pos]
                         for k in rec.keywords:
-                            if k.arg == 'wait_time':
+                            if k.arg == OFN:
                                 wt = k.value
                         if isinstance(wt, ast.BinOp) and isinstance(
                                 wt.op, ast.Add):
@@ -320,71 +343,91 @@ def run(program, rep, tier):
                               line=n.lineno)
     rep.floor('C08.deadline', 'mutations of the wait heap', n_h, 3)
     # ---- record ordering --------------------------------------------------------
-    wg = program.cls('_WaitingGenerator')
     order = any(isinstance(d, ast.Call) and dotted(d.func) == 'dataclass'
                 and any(k.arg == 'order' and isinstance(k.value, ast.Constant)
                         and k.value.value is True for k in d.keywords)
                 for d in wg.decorators)
-    fields = {}
-    for s_ in wg.node.body:
-        if isinstance(s_, ast.AnnAssign) and isinstance(s_.target, ast.Name):
-            cmp_ = True
-            if isinstance(s_.value, ast.Call) and dotted(s_.value.func) == \
-                    'field':
-                for k in s_.value.keywords:
-                    if k.arg == 'compare' and isinstance(
-                            k.value, ast.Constant):
-                        cmp_ = bool(k.value.value)
-            fields[s_.target.id] = cmp_
-    ok = order and fields.get('wait_time') is True and fields.get(
-        'generator') is False and sum(fields.values()) == 1
+    gens = [n for n, c in wfields if not c]
+    ok = order and OF is not None and len(gens) >= 1 and 'generator' in gens
     rep.check(ok, 'C08.deadline', f'{wg.module.relpath}:_WaitingGenerator',
               'dataclass(order=True): compared fields = '
-              + ', '.join(k for k, v in fields.items() if v),
-              'wait records are ordered by wait_time only',
-              'wait records are not ordered by wait_time alone: equal '
+              + ', '.join(n for n, c in wfields if c),
+              'wait records are ordered by their deadline field only',
+              'wait records are not ordered by the deadline alone: equal '
               'deadlines compare the generators (TypeError in heappush) or '
               'records are unordered', line=wg.node.lineno)
-    # ---- sleep test ----------------------------------------------------------------
-    pushes = [n for n in ast.walk(f.node) if isinstance(n, ast.Call)
-              and dotted(n.func) == 'heapq.heappush']
-    guards = []
-    for n in ast.walk(f.node):
-        if isinstance(n, ast.If) and any(p in list(ast.walk(n))
-                                         for p in pushes):
-            inbody = any(p in [x for b in n.body for x in ast.walk(b)]
-                         for p in pushes)
-            guards.append((n, inbody))
-    if not guards:
-        rep.inconclusive('C08.sleep', site, 'heappush', 'no guard found')
+    # ---- sleep test (path based) -------------------------------------------------
+    # For each abstract yielded value, which outcomes (pushed to the heap /
+    # kept runnable) are reachable on paths whose conditions on the yielded
+    # value are consistent with it?
+    outcomes = {v: set() for v in ('none', 'neg', 'zero', 'pos')}
+    unknown = None
+    for ex in exits:
+        tr = ex.state.trace
+        nexts = [i for i, e in enumerate(tr) if e.kind == 'call'
+                 and isinstance(e.sym.node, ast.Call)
+                 and dotted(e.sym.node.func) == 'next']
+        for k, i in enumerate(nexts):
+            end = nexts[k + 1] if k + 1 < len(nexts) else len(tr)
+            seg = tr[i + 1:end]
+            ysym = None
+            # the symbol standing for the yielded value
+            for e in tr[i:end]:
+                if e.kind == 'local' and e.sym is not None and \
+                        e.sym.text.startswith('next\u00b7'):
+                    ysym = e.sym.text
+                    break
+            if ysym is None:
+                continue
+            conds = [e for e in seg if e.kind == 'cond' and ysym
+                     in e.sym.text]
+            pushed = any(e.kind == 'call' and isinstance(
+                e.sym.node, ast.Call) and dotted(e.sym.node.func)
+                == 'heapq.heappush' for e in seg)
+            moved = any(e.kind == 'call' and isinstance(
+                e.sym.node, ast.Call) and dotted(e.sym.node.func) in (
+                    f'{AQ}.rotate', f'{AQ}.popleft') for e in seg)
+            if not (pushed or moved):
+                continue
+            for v in outcomes:
+                consistent = True
+                for c in conds:
+                    try:
+                        tree = ast.parse(c.sym.text.replace(ysym, 'w'),
+                                         mode='eval').body
+                        got = _abs_eval(tree, v)
+                    except TypeError:
+                        consistent = False
+                        if c.extra is not None:
+                            outcomes[v].add('TypeError')
+                        break
+                    except (AnalysisError, SyntaxError) as ex2:
+                        unknown = str(ex2)
+                        consistent = False
+                        break
+                    if got != c.extra:
+                        consistent = False
+                        break
+                if consistent:
+                    outcomes[v].add('push' if pushed else 'stay')
+    if unknown or not any(outcomes.values()):
+        rep.inconclusive('C08.sleep', site, 'sleep test',
+                         unknown or 'no path steps a coroutine')
     else:
-        g, inbody = guards[-1]
-        names = {x.id for x in ast.walk(g.test) if isinstance(x, ast.Name)}
-        try:
-            wrong = None
-            for v in ('none', 'neg', 'zero', 'pos'):
-                try:
-                    got = _abs_eval(g.test, v)
-                except TypeError:
-                    wrong = (v, 'raises TypeError')
-                    break
-                if not inbody:
-                    got = not got
-                if got != (v == 'pos'):
-                    wrong = (v, got)
-                    break
-            rep.check(wrong is None and len(names) == 1, 'C08.sleep', site,
-                      g.test,
-                      'a coroutine is sent to the heap exactly when it '
-                      'yields a positive number',
-                      f'for a yielded value that is {wrong[0] if wrong else "?"} '
-                      f'the sleep test gives {wrong[1] if wrong else "?"}: '
-                      'yielding nothing / zero / a negative number must mean '
-                      '"next frame" (the coroutine otherwise loses its place '
-                      'in the order or process() fails)', line=g.lineno)
-        except AnalysisError as ex:
-            rep.inconclusive('C08.sleep', site, g.test, str(ex),
-                             line=g.lineno)
+        wrong = None
+        for v, got in outcomes.items():
+            want = {'push'} if v == 'pos' else {'stay'}
+            if got != want:
+                wrong = (v, sorted(got))
+        rep.check(wrong is None, 'C08.sleep', site,
+                  'process(): what happens to a yielded value',
+                  'a coroutine is sent to the heap exactly when it yields a '
+                  'positive number',
+                  f'for a yielded value that is {wrong[0] if wrong else "?"} '
+                  f'the coroutine is {wrong[1] if wrong else "?"}: yielding '
+                  'nothing / zero / a negative number must mean "next frame" '
+                  'and a positive number a timed wait',
+                  line=f.node.lineno)
     # ---- sentinel -------------------------------------------------------------------
     init = program.method('CoroutineProcessor', '__init__')
     aq = [n for n in ast.walk(init.node) if isinstance(n, ast.Assign)
